@@ -67,14 +67,14 @@ def gen(repo):
     if not (isinstance(b, ast.Assign) and isinstance(b.targets[0], ast.Subscript)
             and ast.unparse(b.targets[0].value) == 'symbols' and ast.unparse(b.value) == a.targets[0].id):
         raise TranslateError('QAM grid: symbols[...] = symbol')
+    if vo == vi or 'L' in (vo, vi):
+        raise TranslateError('QAM grid: loop variables shadow each other')
     names = {'L', vo, vi}
     sig = '(L %s %s : Int)' % (vo, vi)
     out.append('def qamRe %s : Int := %s\n' % (sig, int_expr(a.value.args[0], names)))
     out.append('def qamIm %s : Int := %s\n' % (sig, int_expr(a.value.args[1], names)))
     out.append('def qamIndex %s : Int := %s\n' % (sig, int_expr(b.targets[0].slice, names)))
     out.append('-- loop variables: outer `%s`, inner `%s`\n' % (vo, vi))
-    if (vo, vi) != ('jj', 'ii'):
-        raise TranslateError('QAM grid: loop variables renamed (%s, %s)' % (vo, vi))
     lsrc = [s for s in stmts if isinstance(s, ast.Assign) and ast.unparse(s.targets[0]) == 'L']
     if not lsrc or ast.unparse(lsrc[0].value) != 'int(round(math.sqrt(M)))':
         raise TranslateError('QAM grid: L')
